@@ -318,16 +318,35 @@ func (in *Interp) condWait(a []Value) Value {
 	if l.T == nil {
 		panic(in.unsupported("sync.Cond without Locker"))
 	}
-	gen := in.condGen[key]
+	// FIFO notify list as in the runtime: a waiter takes a ticket; Signal releases the oldest
+	// waiting ticket, Broadcast all of them
+	in.condGen[key]++
+	ticket := in.condGen[key]
+	in.condWaiters[key] = append(in.condWaiters[key], ticket)
 	in.mutexOp(l.V, 'U')
-	in.block(func() bool { return in.condGen[key] > gen }, "Cond.Wait at "+in.Prog.Fset.Position(in.curPos).String())
+	in.block(func() bool { return in.condReleased[key][ticket] }, "Cond.Wait at "+in.Prog.Fset.Position(in.curPos).String())
 	in.mutexOp(l.V, 'L')
 	return Tuple(nil)
 }
 
 func (in *Interp) condSignal(a []Value, what string) Value {
-	in.condGen[in.condKey(a[0])]++
+	key := in.condKey(a[0])
 	in.condEvents = append(in.condEvents, what)
+	w := in.condWaiters[key]
+	if len(w) == 0 {
+		return Tuple(nil)
+	}
+	if in.condReleased[key] == nil {
+		in.condReleased[key] = map[int]bool{}
+	}
+	n := len(w)
+	if what == "signal" {
+		n = 1
+	}
+	for _, t := range w[:n] {
+		in.condReleased[key][t] = true
+	}
+	in.condWaiters[key] = append([]int{}, w[n:]...)
 	return Tuple(nil)
 }
 
